@@ -8,7 +8,7 @@
    (distinct parameter names, defaults form a suffix of the positional parameters); wf_shape = a call
    Python accepts (no repeated keyword).  All statements are for signatures and calls of any size. *)
 From Coq Require Import List Arith Bool.
-From PV Require Import Bind.Model Bind.Proofs Bind.PytdModel Bind.PytdProofs Bind.SplatModel Bind.SplatProofs Bind.SplatFacts.
+From PV Require Import Bind.Model Bind.Proofs Bind.PytdModel Bind.PytdProofs Bind.SplatModel Bind.SplatProofs Bind.SplatFacts Bind.FormsModel Bind.FormsProofs.
 Import ListNotations.
 
 (* The repaired mapper binds exactly as CPython does. *)
@@ -297,3 +297,165 @@ Proof.
   cbv zeta. split; [apply wf_sigb_sound; reflexivity|]. split; [reflexivity|]. split; [intros k _ []|].
   vm_compute. repeat split; reflexivity.
 Qed.
+
+(* ================================================================================== *)
+(* Call forms (coq/Bind/FormsModel.v): how the callee is reached.  [receiver f]: the attribute is a bound method
+   object (obj.m, C.cm, obj.cm, obj(..) via __call__); otherwise (f, C.m(obj, ..), static methods) the arguments
+   reach the mapper as written.  call_form_py = BoundFunction.call in front of the mapper B, call_form_c = CPython's
+   method object in front of initialize_locals.  insert c = the call with the receiver as argument 0. *)
+
+(* Receiver insertion, pytype side: a bound callee that has a positional parameter is mapped on (receiver, args..) ... *)
+Theorem form_insert_py :
+  forall E (argcount : sig -> nat) (B : sig -> shape -> result E) f s c,
+  receiver f = true -> 1 <= argcount s -> call_form_py argcount B f s c = B s (insert c).
+Proof. exact form_insert_py_lemma. Qed.
+Print Assumptions form_insert_py.
+
+(* ... and an unbound one on the arguments as written. *)
+Theorem form_plain_py :
+  forall E (argcount : sig -> nat) (B : sig -> shape -> result E) f s c,
+  receiver f = false -> call_form_py argcount B f s c = B s c.
+Proof. exact form_plain_py_lemma. Qed.
+Print Assumptions form_plain_py.
+
+(* Hence, by bind_agree_fixed: for every call form, every signature and every call, pytype reports an arity / keyword
+   error iff CPython raises while binding, and otherwise binds every parameter alike -- provided a callee reached
+   through a receiver has a positional parameter to take it. *)
+Theorem form_agree_fixed :
+  forall f s c, wf_sig s -> wf_shape c -> (receiver f = true -> param_names s <> []) ->
+  agree s (call_form_py argcount_src bind_py_fixed f s c) (call_form_c f s c).
+Proof. exact form_agree_fixed_lemma. Qed.
+Print Assumptions form_agree_fixed.
+
+(* The same for the mapper before fix 98ee907, inside its boundary. *)
+Theorem form_agree_partial :
+  forall f s c, wf_sig s -> wf_shape c -> (receiver f = true -> param_names s <> []) ->
+  (kwargs s = None \/ forall k, In k (kws c) -> ~ In k (posonly s)) ->
+  agree s (call_form_py argcount_src bind_py f s c) (call_form_c f s c).
+Proof. exact form_agree_partial_lemma. Qed.
+Print Assumptions form_agree_partial.
+
+(* The proviso is needed: class C: def m(): ...   C().m() -- BoundFunction.call does not put self in front of a
+   callee without positional parameters ("only if the function actually takes any arguments"): no error, CPython
+   raises "takes 0 positional arguments but 1 was given" ... *)
+Theorem form_agree_refuted :
+  exists f s c, receiver f = true /\ wf_sig s /\ wf_shape c /\ param_names s = []
+    /\ is_err (call_form_py argcount_src bind_py_fixed f s c) = false
+    /\ is_err (call_form_c f s c) = true
+    /\ ~ agree s (call_form_py argcount_src bind_py_fixed f s c) (call_form_c f s c).
+Proof. exact form_agree_refuted_lemma. Qed.
+Print Assumptions form_agree_refuted.
+
+(* ... and class C: def n( *va): ...   C().n(x) binds va = (x,); CPython binds va = (self, x). *)
+Theorem form_agree_refuted_binding :
+  exists f s c, receiver f = true /\ wf_sig s /\ wf_shape c
+    /\ lookup_all s (call_form_py argcount_src bind_py_fixed f s c) = Some [Some (VarArgs [1])]
+    /\ lookup_all s (call_form_c f s c) = Some [Some (VarArgs [0; 1])]
+    /\ ~ agree s (call_form_py argcount_src bind_py_fixed f s c) (call_form_c f s c).
+Proof. exact form_agree_refuted_binding_lemma. Qed.
+Print Assumptions form_agree_refuted_binding.
+
+(* Stub callees, every call form: error iff error. *)
+Theorem form_pytd_err_agree :
+  forall va_annotated argname f s c, wf_sig s -> wf_shape c ->
+  argname_fresh argname s c -> (receiver f = true -> 1 <= argcount_pytd s) ->
+  is_err (call_form_py argcount_pytd (bind_pytd va_annotated argname) f s c) = is_err (call_form_c f s c).
+Proof. exact form_pytd_err_agree_lemma. Qed.
+Print Assumptions form_pytd_err_agree.
+
+(* Constructors C(..).  m = what the user classes on C's MRO define (most derived first); ctor_py = Class.call /
+   _call_new_and_init / call_init with object.__init__ as special_builtins.Object hands it out; ctor_c = type_call
+   with object_new / object_init's excess-argument rule.  For every hierarchy and every call: both raise, or both
+   run the same user constructors (the first __new__ and the first __init__ on the MRO) with every parameter bound
+   alike; with no user constructor at all both raise iff an argument is written.  One exclusion: ... *)
+Theorem ctor_agree_fixed :
+  forall argname m c, wf_mro m -> wf_shape c ->
+  (lookup c_new m <> None -> lookup c_init m = None -> ~ In SELF (kws c)) ->
+  ctor_agree m (ctor_py bind_py_fixed argname m c) (ctor_c m c).
+Proof. exact ctor_agree_fixed_lemma. Qed.
+Print Assumptions ctor_agree_fixed.
+
+Theorem ctor_err_iff_fixed :
+  forall argname m c, wf_mro m -> wf_shape c ->
+  (lookup c_new m <> None -> lookup c_init m = None -> ~ In SELF (kws c)) ->
+  ctor_is_err (ctor_py bind_py_fixed argname m c) = ctor_is_err (ctor_c m c).
+Proof. exact ctor_err_iff_fixed_lemma. Qed.
+Print Assumptions ctor_err_iff_fixed.
+
+(* ... a class with its own __new__ and object's __init__, called with the keyword self: pytype maps the call onto the
+   stub  def __init__extra_args(self, *args, **kwargs)  and reports self as duplicate keyword; CPython accepts. *)
+Theorem ctor_agree_refuted_self_keyword :
+  exists m c, wf_mro m /\ wf_shape c /\ In SELF (kws c)
+    /\ ctor_py bind_py_fixed argname14 m c = CtorErr (EDuplicateKeyword [SELF])
+    /\ ctor_is_err (ctor_c m c) = false.
+Proof. exact ctor_agree_refuted_self_keyword_lemma. Qed.
+Print Assumptions ctor_agree_refuted_self_keyword.
+
+(* Inherited constructors: classes that define neither __new__ nor __init__ are transparent, on both sides. *)
+Theorem ctor_inherited :
+  forall B argname m1 m2 c,
+  (forall k, In k m1 -> c_new k = None /\ c_init k = None) ->
+  ctor_py B argname (m1 ++ m2) c = ctor_py B argname m2 c /\ ctor_c (m1 ++ m2) c = ctor_c m2 c.
+Proof. exact ctor_inherited_lemma. Qed.
+Print Assumptions ctor_inherited.
+
+(* Several stub signatures (PyTDFunction._match_args_sequentially = call_overloaded): an arity / keyword error is
+   reported iff EVERY signature fails to bind under CPython's rules, ... *)
+Theorem overload_err_iff :
+  forall va_annotated argname sigs c, wf_shape c ->
+  (forall s, In s sigs -> wf_sig s /\ argname_fresh argname s c) ->
+  ov_is_err (call_overloaded (bind_pytd va_annotated argname) sigs c)
+  = forallb (fun s => is_err (bind_c s c)) sigs.
+Proof. exact overload_err_iff_lemma. Qed.
+Print Assumptions overload_err_iff.
+
+(* ... the error reported is then the one of the FIRST signature, ... *)
+Theorem overload_error_first :
+  forall E (B : sig -> shape -> result E) s rest c e,
+  call_overloaded B (s :: rest) c = OvErr e -> B s c = Err e.
+Proof. exact overload_error_first_lemma. Qed.
+Print Assumptions overload_error_first.
+
+(* ... and otherwise the signatures handed on to type matching are exactly those CPython could bind, in order. *)
+Theorem overload_matched :
+  forall va_annotated argname sigs c matched, wf_shape c ->
+  (forall s, In s sigs -> wf_sig s /\ argname_fresh argname s c) ->
+  call_overloaded (bind_pytd va_annotated argname) sigs c = OvOk matched ->
+  map fst matched = filter (fun s => negb (is_err (bind_c s c))) sigs /\ matched <> [].
+Proof. exact overload_matched_lemma. Qed.
+Print Assumptions overload_matched.
+
+(* Non-vacuity.  class B2: def __new__(cls, d, e=.., *, g=..)   class B1(B2): def __init__(self, d, *va, **kw)
+   class C(B1): pass.   C(p1, p2, g=..): both constructors run, both sides bind alike; C(p1, zz=..): __new__ rejects *)
+Definition sig_new : sig := mkSig [] [13; 3; 4] [6] [4; 6] None None.
+Definition sig_init : sig := mkSig [] [12; 3] [] [] (Some 9) (Some 10).
+Definition mro3 : list cls_def := [mkCls None None; mkCls None (Some sig_init); mkCls (Some sig_new) None].
+Example ctor_example :
+  wf_mro mro3 /\
+  ctor_py bind_py_fixed argname14 mro3 (mkShape 2 [6])
+    = CtorOk (Some [(4, Pos 2); (6, Kw 6); (13, Pos 0); (3, Pos 1)])
+             (Some [(12, Pos 0); (3, Pos 1); (6, Kw 6); (9, VarArgs [2]); (10, KwArgs [6])]) /\
+  ctor_is_err (ctor_c mro3 (mkShape 2 [6])) = false /\
+  ctor_is_err (ctor_py bind_py_fixed argname14 mro3 (mkShape 1 [11])) = true /\
+  ctor_is_err (ctor_c mro3 (mkShape 1 [11])) = true /\
+  (* no constructor anywhere: C() is fine, C(x) is not *)
+  ctor_is_err (ctor_py bind_py_fixed argname14 [mkCls None None] (mkShape 0 [])) = false /\
+  ctor_py bind_py_fixed argname14 [mkCls None None] (mkShape 1 []) = CtorErr EWrongArgCount /\
+  ctor_c [mkCls None None] (mkShape 1 []) = CtorErr CNoArguments.
+Proof.
+  split.
+  - split; cbn; intros s H; injection H as <-; [|split; [|discriminate]]; apply wf_sigb_sound; reflexivity.
+  - vm_compute. repeat split; reflexivity.
+Qed.
+
+(* overloads  def f(a, /) ; def f(a, b, *, g) : f(p0) uses the first, f(p0, p1, g=..) the second,
+   f(p0, p1) matches neither and the error is the first signature's *)
+Example overload_example :
+  let sigs := [mkSig [0] [] [] [] None None; mkSig [] [0; 1] [6] [] None None] in
+  map fst (match call_overloaded (bind_pytd false argname14) sigs (mkShape 1 []) with OvOk l => l | _ => [] end)
+    = [mkSig [0] [] [] [] None None] /\
+  map fst (match call_overloaded (bind_pytd false argname14) sigs (mkShape 2 [6]) with OvOk l => l | _ => [] end)
+    = [mkSig [] [0; 1] [6] [] None None] /\
+  call_overloaded (bind_pytd false argname14) sigs (mkShape 2 []) = OvErr EWrongArgCount /\
+  forallb (fun s => is_err (bind_c s (mkShape 2 []))) sigs = true.
+Proof. vm_compute. repeat split; reflexivity. Qed.
